@@ -152,7 +152,7 @@ def main(chk):
     w2c2 = env.build_translator('plain')
     root = env.subdir('c18')
     limits = [(1, 8), (1, 64), (2, 3), (1, 200), (4, 4), (1, 32)]
-    imported = {0, 5}        # these limit shapes IMPORT their shared memory (0 runs under plain+tsan, 5 under plain+release builds)
+    imported = {0, 5}        # these limit shapes IMPORT their shared memory (one translated into a single file, one with -f 1)
     exes = {}
     for li, (mn, mx) in enumerate(limits):
         d = os.path.join(root, 'l%d' % li)
@@ -176,7 +176,7 @@ def main(chk):
     for k in range(nh):
         r0 = env.rng('c18', k)
         li = k % len(limits)
-        tag = ['plain', 'plain', 'tsan', 'noguard'][k % 4]
+        tag = ['plain', 'tsan', 'plain', 'noguard'][(k // len(limits)) % 4]     # independent of li: every limit shape runs under every build
         if (li, tag) not in exes:
             continue
         T = r0.choice([2, 4, 8, 8, 16])
